@@ -584,6 +584,7 @@ def run(ctx, res):
 
     unit = run_unit(ctx, res, jinja2, tb_jobs)
     f3_ok, _log = core.lake_build(["JinjaV.Findings.F3"]) if not ctx.proof_broken else (False, "")
+    loop_ok, _log = core.lake_build(["JinjaV.Findings.C04Loop"]) if not ctx.proof_broken else (False, "")
     res.coverage.update({
         "evaluations": evaluations + unit["evaluations"],
         "distinct_nontrivial": len(distinct) + unit["distinct"],
@@ -606,6 +607,8 @@ def run(ctx, res):
         "findings_seen": stats["findings"],
         "F3_witness": ("Findings/F3.lean builds: the full-strength required statement is false of the model"
                        if f3_ok else "Findings/F3.lean does not build: F3 no longer reproduces in the model"),
+        "child_loop_witness": ("Findings/C04Loop.lean builds: render_chain is false once a child may have a top-level for "
+                               "with blocks" if loop_ok else "Findings/C04Loop.lean does not build"),
         "unit": {k: v for k, v in unit.items() if k != "rule"},
     })
 
